@@ -31,7 +31,7 @@ CLAIM = dict(
     "1-D..3-D scalar/vector images and series (trailing axes do not enter), plus full-table comparison on fresh images and after in-place "
     "shape changes. Tie: every public Grid table (incl. cell_index, face_index, faces_shape) equals the model on all 186 shapes of the stated "
     "range plus random larger/thin shapes.",
-    note="connectivity / reverse_connectivity are dumped from the scatter-built model; numpy slicing + ravel('F') of the index arrays is modelled "
+    note="Round 7: interior_1d, interior_iff_tangential_complete and the generate_grid geometry / staleness clauses are TIE-BROKEN marks (statement: partition + consistent tables), harness exceptions are HARNESS marks, faces[a] may be slices. connectivity / reverse_connectivity are dumped from the scatter-built model; numpy slicing + ravel('F') of the index arrays is modelled "
     "pointwise (tied by the exhaustive correspondence).",
     technique="Lean 4 proof (induction over the shape list) + exhaustive-in-range differential correspondence + G1 tables",
 )
